@@ -466,10 +466,6 @@ class Analysis:
         visit(tree, None)
 
 
-class Dead(Exception):
-    pass
-
-
 class MethodTranslator:
     def __init__(self, analysis, meth):
         self.an = analysis
